@@ -49,6 +49,7 @@ func fail(format string, a ...any) {
 // dialect "micro": package micro over Term.v;  dialect "gomini": gomini/unify.go over Reflect.v / GCore.v (see GoLiteG.v)
 var dialect = "micro"
 var prefix = "g_"
+var emitOnly map[string]bool // when set: translate everything, write only these functions
 
 func goType(e ast.Expr) string {
 	if dialect == "mini" {
@@ -204,6 +205,7 @@ type ctx struct {
 	ren   map[string]string // Go variable -> Coq name, for variables scoped to an if statement (they must not shadow in the rest)
 	fuel  string            // the fuel term handed to fuelled calls
 	fresh *int
+	cdrOf map[string]string // stream dialect: Go variable bound as the cdr of `_, v := X.CarCdr()` -> Coq name of X
 }
 
 func (c *ctx) name(s string) string {
@@ -227,7 +229,11 @@ func (c *ctx) clone() *ctx {
 	for k, t := range c.ren {
 		rn[k] = t
 	}
-	return &ctx{f: c.f, vars: v, ren: rn, fuel: c.fuel, fresh: c.fresh}
+	co := map[string]string{}
+	for k, t := range c.cdrOf {
+		co[k] = t
+	}
+	return &ctx{f: c.f, vars: v, ren: rn, fuel: c.fuel, fresh: c.fresh, cdrOf: co}
 }
 
 func ret(e ex) string {
@@ -789,6 +795,30 @@ func (c *ctx) streamClosureCall(e *ast.CallExpr) (ex, bool) {
 				}
 			}
 		}
+		// Suspension(func() *StreamOfStates { return SELF(a1, .., ak, cdr) }) with `_, cdr := X.CarCdr()` in the enclosing body:
+		// the loop suspended over the immature cell X (the model's thunk over the thunk of X) = susp_self_SELF a1 .. ak X
+		if ok && isThunkType(fl) && len(fl.Body.List) == 1 {
+			if rs, ok := fl.Body.List[0].(*ast.ReturnStmt); ok && len(rs.Results) == 1 {
+				if call, ok := rs.Results[0].(*ast.CallExpr); ok && len(call.Args) >= 1 {
+					if fid, ok := call.Fun.(*ast.Ident); ok && fid.Name == c.f.name && len(call.Args) == len(c.f.params) {
+						last, ok := call.Args[len(call.Args)-1].(*ast.Ident)
+						if !ok || c.cdrOf[last.Name] == "" || c.f.params[len(c.f.params)-1][1] != "stream" {
+							fail("%s: suspension outside the subset: %s", c.f.name, src(e))
+						}
+						code := "susp_self_" + c.f.name
+						for i, a := range call.Args[:len(call.Args)-1] {
+							x := c.expr(a, c.f.params[i][1])
+							if x.ty != c.f.params[i][1] || !x.pure {
+								fail("%s: suspension outside the subset: %s", c.f.name, src(e))
+							}
+							code += " (" + x.code + ")"
+						}
+						code += " (" + c.cdrOf[last.Name] + ")"
+						return ex{code, false, "stream"}, true
+					}
+				}
+			}
+		}
 		if !ok || !isThunkType(fl) || len(fl.Body.List) != 2 {
 			fail("%s: suspension outside the subset: %s", c.f.name, src(e))
 		}
@@ -982,6 +1012,12 @@ func (c *ctx) call(e *ast.CallExpr) ex {
 			}
 		}
 	case "NewSingletonStream":
+		if len(e.Args) == 1 && dialect == "stream" { // NewStream(car, nil)
+			x := c.expr(e.Args[0], "mstate?")
+			if x.ty == "mstate?" && x.pure {
+				return ex{"new_stream (" + x.code + ") SNil", false, "stream"}
+			}
+		}
 		if len(e.Args) == 1 && dialect == "micro" {
 			x := c.expr(e.Args[0], "mstate")
 			if x.ty == "mstate" {
@@ -1220,6 +1256,26 @@ func (c *ctx) stmts(ss []ast.Stmt, k string) string {
 		if len(pnames) > 1 {
 			p = "'(" + strings.Join(pnames, ", ") + ")"
 		}
+		for _, n := range names { // an assignment ends what was known about the variable
+			delete(c.cdrOf, n)
+		}
+		for v, x := range c.cdrOf {
+			for _, pn := range pnames {
+				if x == pn {
+					delete(c.cdrOf, v)
+				}
+			}
+		}
+		// a, v := X.CarCdr() with X a variable: v is the cdr of X (used by the closure shape `Suspension(func() { return SELF(.., v) })`)
+		if dialect == "stream" && len(names) == 2 && names[1] != "_" && s.Tok == token.DEFINE {
+			if call, ok := s.Rhs[0].(*ast.CallExpr); ok && len(call.Args) == 0 {
+				if sel, ok := call.Fun.(*ast.SelectorExpr); ok && sel.Sel.Name == "CarCdr" {
+					if xid, ok := sel.X.(*ast.Ident); ok && c.vars[xid.Name] == "stream" {
+						c.cdrOf[names[1]] = c.name(xid.Name)
+					}
+				}
+			}
+		}
 		return c.bindTo(e, p, c.stmts(rest, k))
 	case *ast.ExprStmt:
 		// copy(m, s)
@@ -1456,8 +1512,16 @@ func main() {
 		order = []string{"takeStream", "Mplus", "Bind", "Disj", "Conj", "Zzz", "CallFresh"}
 		os.Args = append(os.Args[:1], os.Args[2:]...)
 	}
+	if len(os.Args) == 4 && os.Args[1] == "-loops" {
+		// the stream dialect again, over micro's stream operators plus mini/ifthenelse.go and mini/once.go; only the latter are
+		// emitted (gen/LoopsGen.v imports gen/StreamGen.v for Bind)
+		dialect, prefix = "stream", "gs_"
+		order = []string{"takeStream", "Mplus", "Bind", "Disj", "Conj", "Zzz", "CallFresh", "ifThenElseLoop", "IfThenElseO", "onceLoop", "OnceO"}
+		emitOnly = map[string]bool{"ifThenElseLoop": true, "IfThenElseO": true, "onceLoop": true, "OnceO": true}
+		os.Args = append(os.Args[:1], os.Args[2:]...)
+	}
 	if len(os.Args) != 3 {
-		fail("usage: genmicro [-gomini|-stream|-mini] <repo> <outdir>")
+		fail("usage: genmicro [-gomini|-stream|-loops|-mini] <repo> <outdir>")
 	}
 	repo, outdir := os.Args[1], os.Args[2]
 	files := []string{"micro/walk.go", "micro/exts.go", "micro/unify.go", "micro/reify.go", "micro/goal.go"}
@@ -1466,12 +1530,24 @@ func main() {
 	}
 	if dialect == "stream" {
 		files = []string{"micro/stream.go", "micro/disj.go", "micro/conj.go", "micro/fresh.go"}
+		if emitOnly != nil {
+			files = append(files, "mini/ifthenelse.go", "mini/once.go")
+		}
 	}
 	if dialect == "mini" {
 		files = []string{"mini/disj.go", "mini/conj.go", "mini/conde.go"}
 	}
 	for _, p := range files {
-		f, err := parser.ParseFile(fset, filepath.Join(repo, p), nil, 0)
+		var text any
+		if dialect == "stream" && strings.HasPrefix(p, "mini/") {
+			// package mini names micro's types and functions with the qualifier `micro.`; the stream dialect reads them unqualified
+			b, err := os.ReadFile(filepath.Join(repo, p))
+			if err != nil {
+				fail("%v", err)
+			}
+			text = strings.ReplaceAll(string(b), "micro.", "")
+		}
+		f, err := parser.ParseFile(fset, filepath.Join(repo, p), text, 0)
 		if err != nil {
 			fail("%v", err)
 		}
@@ -1604,6 +1680,10 @@ func main() {
 		sb.WriteString("(* GENERATED by harness/cmd/genmicro -mini from mini/disj.go, mini/conj.go, mini/conde.go - do not edit.\n")
 		sb.WriteString("   Each combinator as a function from goal lists to the goal it returns (a term of Goal.v), statement by statement, in the\n   result monad of GoLite.v; the function literals it returns are read as GDisj / GConj (the bodies of micro.Disj / micro.Conj). *)\n")
 		sb.WriteString("From Coq Require Import List NArith ZArith Bool.\nFrom GMK Require Import Term Goal GoLite GoLiteM.\nImport ListNotations.\n\n")
+	} else if dialect == "stream" && emitOnly != nil {
+		sb.WriteString("(* GENERATED by harness/cmd/genmicro -loops from mini/ifthenelse.go, mini/once.go - do not edit.\n")
+		sb.WriteString("   ifThenElseLoop, IfThenElseO, onceLoop, OnceO, statement by statement, in the result monad of GoLite.v over the stream model of\n   Stream.v (CarCdr = GoLiteS.carcdr; micro.Bind = gen/StreamGen.v's gs_Bind; the qualifier `micro.` is dropped). *)\n")
+		sb.WriteString("From Coq Require Import List NArith ZArith Bool.\nFrom GMK Require Import Term Unify Goal Stream GoLite GoLiteS gen.StreamGen.\nImport ListNotations.\n\n")
 	} else if dialect == "stream" {
 		sb.WriteString("(* GENERATED by harness/cmd/genmicro -stream from micro/stream.go - do not edit.\n")
 		sb.WriteString("   takeStream, statement by statement, in the result monad of GoLite.v over the stream model of Stream.v (CarCdr = GoLiteS.carcdr). *)\n")
@@ -1620,7 +1700,11 @@ func main() {
 	fresh := 0
 	for _, n := range sorted {
 		g := fns[n]
-		c := &ctx{f: g, vars: map[string]string{}, ren: map[string]string{}, fresh: &fresh}
+		var w *strings.Builder = &sb
+		if emitOnly != nil && !emitOnly[n] { // translated (so that the calls to it are checked) but not written
+			w = &strings.Builder{}
+		}
+		c := &ctx{f: g, vars: map[string]string{}, ren: map[string]string{}, fresh: &fresh, cdrOf: map[string]string{}}
 		var ps []string
 		for _, p := range g.params {
 			c.vars[p[0]] = p[1]
@@ -1631,20 +1715,20 @@ func main() {
 			sig = "(ds : defs) (uf : term -> term -> subst -> nat) " + sig
 		}
 		rt := "R " + coqType(g.resType())
-		fmt.Fprintf(&sb, "(* %s *)\n", strings.ReplaceAll(strings.ReplaceAll(g.sig, "(*", "( *"), "*)", "* )"))
+		fmt.Fprintf(w, "(* %s *)\n", strings.ReplaceAll(strings.ReplaceAll(g.sig, "(*", "( *"), "*)", "* )"))
 		switch {
 		case g.rec:
 			c.fuel = "f'"
 			body := c.stmts(g.body.List, "")
-			fmt.Fprintf(&sb, "Fixpoint %s%s (f : nat) %s {struct f} : %s :=\nmatch f with\n| O => OOF_\n| S f' =>\n%s\nend.\n\n", prefix, n, sig, rt, body)
+			fmt.Fprintf(w, "Fixpoint %s%s (f : nat) %s {struct f} : %s :=\nmatch f with\n| O => OOF_\n| S f' =>\n%s\nend.\n\n", prefix, n, sig, rt, body)
 		case g.fuelled:
 			c.fuel = "f"
 			body := c.stmts(g.body.List, "")
-			fmt.Fprintf(&sb, "Definition %s%s (f : nat) %s : %s :=\n%s.\n\n", prefix, n, sig, rt, body)
+			fmt.Fprintf(w, "Definition %s%s (f : nat) %s : %s :=\n%s.\n\n", prefix, n, sig, rt, body)
 		default:
 			c.fuel = "NOFUEL"
 			body := c.stmts(g.body.List, "")
-			fmt.Fprintf(&sb, "Definition %s%s %s : %s :=\n%s.\n\n", prefix, n, sig, rt, body)
+			fmt.Fprintf(w, "Definition %s%s %s : %s :=\n%s.\n\n", prefix, n, sig, rt, body)
 		}
 	}
 	out := filepath.Join(outdir, "MicroGen.v")
@@ -1653,6 +1737,9 @@ func main() {
 	}
 	if dialect == "stream" {
 		out = filepath.Join(outdir, "StreamGen.v")
+		if emitOnly != nil {
+			out = filepath.Join(outdir, "LoopsGen.v")
+		}
 	}
 	if dialect == "mini" {
 		out = filepath.Join(outdir, "MiniGen.v")
